@@ -2,20 +2,17 @@
   C01 — rigid-motion primitives: exp/log are inverse, inverse/adjoint are homomorphic.
   Property theorems about BR/Model/MR.lean at the `ℝ` instance.
 -/
-import BR.Lemmas.Rot
+import BR.Lemmas.SO3
 
 namespace BR.C01
 open BR.MR BR.Rot OrdField Scalar
-
-/-- proper rotation: orthonormal with determinant +1 -/
-def IsRot (R : M3 ℝ) : Prop := R.T * R = M3.one ∧ R.det = 1
 
 /-- skew-symmetric 3×3 -/
 def IsSkew (m : M3 ℝ) : Prop := m.T = -m
 
 /-! ### hat / vee are mutually inverse -/
 
-theorem vee_hat (w : V3 ℝ) : vee (hat w) = w := by cases w; rfl
+theorem vee_hat (w : V3 ℝ) : vee (hat w) = w := BR.Rot.vee_hat w
 
 theorem hat_vee (m : M3 ℝ) (h : IsSkew m) : hat (vee m) = m := by
   obtain ⟨a, b, c, d, e, f, g, h', i⟩ := m
@@ -34,16 +31,6 @@ theorem hat6_vee6 (X : T4 ℝ) (h : IsSkew X.R) : hat6 (vee6 X) = X := by
 
 /-! ### the exponential is a proper rotation -/
 
-theorem norm3_nonneg (w : V3 ℝ) : 0 ≤ norm3 w := Real.sqrt_nonneg _
-
-theorem norm3_sq (w : V3 ℝ) : norm3 w ^ 2 = w.x ^ 2 + w.y ^ 2 + w.z ^ 2 := by
-  unfold norm3
-  show Real.sqrt _ ^ 2 = _
-  rw [Real.sq_sqrt (by nlinarith [sq_nonneg w.x, sq_nonneg w.y, sq_nonneg w.z])]; ring
-
-theorem nearZero_iff (z : ℝ) : nearZero z ↔ |z| < 1e-6 := by
-  unfold nearZero; simp only [sabs_real', sci_real]
-
 theorem not_nearZero_norm (w : V3 ℝ) (h : ¬ nearZero (norm3 w)) : (1e-6 : ℝ) ≤ norm3 w := by
   rw [nearZero_iff, abs_of_nonneg (norm3_nonneg w)] at h
   exact not_lt.mp h
@@ -55,19 +42,6 @@ theorem unit_of_pos (w : V3 ℝ) (h : 0 < norm3 w) :
   have hne : norm3 w ≠ 0 := ne_of_gt h
   field_simp
   linarith
-
-/-- outside the near-zero band the code computes Rodrigues' formula for the unit axis -/
-theorem exp3_eq_rod (w : V3 ℝ) (h : ¬ nearZero (norm3 w)) :
-    matrixExp3 (hat w) = rod (V3.sdiv w (norm3 w)) (Real.sin (norm3 w)) (Real.cos (norm3 w)) := by
-  unfold matrixExp3
-  simp only [vee_hat, if_neg h]
-  obtain ⟨x, y, z⟩ := w
-  unfold rod
-  m3ring
-
-theorem exp3_small (w : V3 ℝ) (h : nearZero (norm3 w)) : matrixExp3 (hat w) = M3.one := by
-  unfold matrixExp3
-  simp only [vee_hat, if_pos h]
 
 theorem one_isRot : IsRot M3.one := by
   constructor
@@ -147,6 +121,17 @@ theorem log3_exp3_small (w : V3 ℝ) (h : norm3 w < (1e-6 : ℝ)) :
   have : (M3.trace (M3.one : M3 ℝ) - 1) / 2 = 1 := by m3simp; norm_num
   simp only [ofNat_real_one, ofNat_real] at this ⊢
   rw [this, if_pos (le_refl _)]
+
+/-- **exp3 ∘ log3 = id on all of SO(3)** (identity, generic and half-turn branches with all three
+    pivots), for every rotation whose angle is 0 or at least the library's 1e-6 cut-off. -/
+theorem exp3_log3 (R : M3 ℝ) (hR : IsRot R)
+    (h : 1 ≤ (R.trace - 1) / 2 ∨ (1e-6 : ℝ) ≤ Real.arccos ((R.trace - 1) / 2)) :
+    matrixExp3 (matrixLog3 R) = R := BR.Rot.exp3_log3 R hR h
+
+/-- half turns (trace = −1) are covered: the hypothesis of `exp3_log3` holds there -/
+example (R : M3 ℝ) (ht : R.trace = -1) : (1e-6 : ℝ) ≤ Real.arccos ((R.trace - 1) / 2) := by
+  rw [ht, show ((-1 : ℝ) - 1) / 2 = -1 by norm_num, Real.arccos_neg_one]
+  linarith [Real.two_le_pi]
 
 /-! ### inverse and adjoint agree with the group structure -/
 
